@@ -91,6 +91,8 @@ def parse_case(case):
                 if name not in files:
                     return None if mode == 0 else (None, None)
                 data = files[name]
+                if inp.get('http') and name != inp['root']:
+                    return (inp['http'], data.encode('utf-8'))
                 return (None, data.encode('utf-8')) if mode != 2 else ('utf-8', data.encode('utf-8'))
             p = cssutils.CSSParser(parseComments=pc, validate=val, fetcher=fetcher)
             obj = p.parseString(files[inp['root']], href='http://h/' + inp['root'])
@@ -170,6 +172,15 @@ def gen_cases(ctx):
             files[nm] = imps + G.gen_soup(rng, 8)
         cases.append({'kind': 'fetch', 'input': {'files': files, 'root': 'a.css', 'mode': rng.randrange(3)},
                       'opts': opts(), 'family': 'fetch'})
+    # imported sheets whose applicable encoding is a codec of every kind Python registers (text, bytes-to-bytes,
+    # text-to-text, unknown): named by @charset in the content or by the charset the fetcher reports
+    for codec in ('rot13', 'zlib', 'quopri', 'hex', 'base64', 'bz2', 'uu', 'idna', 'punycode', 'undefined', 'nope', 'utf-7', 'unicode_escape',
+                  'raw_unicode_escape', 'utf-16', 'utf-32', 'cp037', 'mbcs'):
+        for where in ('charset', 'http', 'nested'):
+            files = {'a.css': '@import "b.css"; a{left:0}', 'b.css': ('@charset "%s";' % codec if where != 'http' else '') + ('@import "c.css";' if where == 'nested' else '') + 'b{top:0}',
+                     'c.css': 'c{right:0}'}
+            cases.append({'kind': 'fetch', 'input': {'files': files, 'root': 'a.css', 'mode': 1, 'http': codec if where == 'http' else None},
+                          'opts': opts(), 'family': 'fetch-codec'})
     return cases
 
 
